@@ -38,7 +38,8 @@ func main() {
 		api.DisableConfigDir()
 		t.Rule("case = (fetch site, how the URL is handed over, URL chain incl. redirects, scripted DNS answers per query, allow-list, offline switch); " +
 			"non-trivial = distinct (site, group, item) where the item names the URL form / literal / answer-set shape / allow-list spelling / redirect chain; " +
-			"items of a group are walked round-robin per site, their addresses, names, ports and schemes are drawn from the seed")
+			"items of a group are walked round-robin per site, their addresses, names, ports and schemes are drawn from the seed; "+
+			"group idna = hosts that are an address literal only after the IDNA/UTS-46 mapping net/http applies before dialling (fullwidth digits, U+3002, U+FF0E, U+FF61, mixed, percent-encoded UTF-8) x loopback/RFC 1918/link-local/unspecified targets x {URL host, redirect target}: every spelling and every target class is a core item at every site")
 		t.Assume("observation point: hooks inside package net (Resolver.lookupIPAddr, Dialer.DialContext, sysDialer.dialSingle) on the shadow GOROOT; a connection made without package net (raw syscalls) would not be seen — pdfcpu and its dependencies have none")
 		t.Assume("the address judged is the one pdfcpu asked package net to connect to; the socket itself is steered to a loopback test server or refused by the hook, no packet leaves the sandbox")
 		t.Assume("forbidden classes are exactly those the property names: loopback 127/8 ::1, private 10/8 172.16/12 192.168/16 fc00::/7, link-local 169.254/16 fe80::/10, multicast 224/4 ff00::/8, unspecified 0.0.0.0 ::, and their IPv4-mapped forms; CGNAT, 0/8, 240/4, NAT64, IPv4-compatible are counted, not judged")
@@ -66,7 +67,7 @@ func main() {
 			return
 		}
 
-		n := t.Pick(400, 5000)
+		n := t.Pick(480, 6000) // 4 resp. 50 rounds of the 24-slot group wheel at each of the 5 sites
 		scs := schedule(t, n)
 		for i := range scs {
 			runScenario(t, e, d, &scs[i])
@@ -82,6 +83,11 @@ func main() {
 			}
 			if t.Counter("dials/"+s+"/public") == 0 {
 				t.Inconclusive("site=" + s + "/no-dial-observed")
+			}
+		}
+		for _, s := range sites {
+			if t.Counter("idna_mapped_literal_asked/"+s) == 0 {
+				t.Inconclusive("site=" + s + "/idna-mapped-literal-never-asked")
 			}
 		}
 		for _, s := range []string{siteCRL, siteOCSP} {
@@ -447,6 +453,30 @@ func judge(t *vk.T, e *env, sc *Scenario, res *result, canary int64) {
 		}
 	}
 	t.Count("requests_served_tls/"+site, int64(tls))
+
+	// IDNA group: the mapped (ASCII) literal must have been asked of package net (as a lookup or as a
+	// dial) at least somewhere, else the spellings exercised nothing of the dial-time classification
+	if sc.Group == "idna" && !sc.Offline {
+		asked := false
+		for _, ev := range res.Events {
+			host := ev.Host
+			if ev.Kind != netmon.Lookup {
+				host, _, _ = net.SplitHostPort(ev.Addr)
+			}
+			if c := netmon.CanonIP(host); c != "" {
+				for _, o := range own[c] {
+					if o.ghost {
+						asked = true
+					}
+				}
+			}
+		}
+		if asked {
+			t.Count("idna_mapped_literal_asked/"+site, 1)
+		} else {
+			t.Count("idna_mapped_literal_not_asked/"+site, 1)
+		}
+	}
 
 	// guard at work: a hostile hop that was NOT dialled
 	if !sc.Offline {
